@@ -557,6 +557,11 @@ func (o *orbitDB) Open(ctx context.Context, dbAddress string, options *CreateDBO
 		options.IO = io.CBOR()
 	}
 
+	// the block behind a link is whatever its author wanted it to be: decoding
+	// it must fail, not panic (the dependency's decoder dereferences fields an
+	// entry-shaped block may lack, in a goroutine nothing recovers)
+	options.IO = safeDecodeIO(options.IO)
+
 	o.logger.Debug("Open database ", zap.String("dbAddress", dbAddress))
 
 	directory := o.directory
